@@ -23,7 +23,8 @@ def _injected(base):
 # the same fault as an instance of common built-in exception classes (a failure of user code can be of any class;
 # StopIteration in particular is swallowed by iterator-driven loops)
 INJECTED_CLASSES = [InjectedFault] + [_injected(b) for b in (StopIteration, KeyError, AttributeError, OverflowError, TypeError,
-                                                              ValueError, IndexError, RuntimeError, LookupError, ArithmeticError)]
+                                                              ValueError, IndexError, RuntimeError, LookupError, ArithmeticError,
+                                                              ZeroDivisionError)]
 for _c in INJECTED_CLASSES[1:]:
     globals()[_c.__name__] = _c
 
